@@ -5,6 +5,7 @@ import CogentModel.Model.PhyloTreeDist
 import CogentModel.Model.PhyloMidpoint
 import CogentModel.Model.PhyloNewickStr
 import CogentModel.Model.PhyloNames
+import CogentModel.Gen.C09Newick
 import CogentModel.Spec.PhyloSplits
 open CogentModel CogentModel.Phylo
 
@@ -145,6 +146,18 @@ def handle (cmd : String) (j : J) : Except String J :=
       | y => do pure (some (← y.toStr))
     pure (J.obj [("builder", J.arr ((assignNames labels).map J.str)),
                  ("make_tree", J.arr ((makeTreeNames labels).map J.str))])
+  | "gen_unique" => do
+    -- wave 3: the TRANSLATED `_unique_name` (Gen/C09Newick.lean) run on an arbitrary dict state, a list of calls in sequence
+    let used ← (← j.get "used").toListOf (J.toPairOf J.toStr J.toInt)
+    let ls ← (← j.get "labels").toList
+    let labels ← ls.mapM fun x => match x with
+      | J.null => pure none
+      | y => do pure (some (← y.toStr))
+    let used := if (← (← j.get "init").toBool) then CogentModel.Gen.C09Newick.usedNamesInit else used
+    let (u, names) := labels.foldl (fun (acc : Used × List String) l =>
+      let r := CogentModel.Gen.C09Newick.uniqueName acc.1 l; (r.1, acc.2 ++ [r.2])) (used, [])
+    pure (J.obj [("names", J.arr (names.map J.str)),
+                 ("used", J.arr (u.map fun kv => J.arr [J.str kv.1, J.num kv.2]))])
   | "spaces" => do
     -- every code point the model's `pySpace` accepts (compared with str.isspace over all of Unicode)
     let hi ← (← j.get "upto").toNat
